@@ -237,6 +237,48 @@ Theorem C14_ntske_error_record : forall x fuel rest d, 0 <= x < 65536 ->
 Proof. exact read_step_error. Qed.
 Print Assumptions C14_ntske_error_record.
 
+(* RECORDS OUTSIDE `canonical`, and what the decoder discards.
+   An Algorithm record with n >= 1 entries: ReadData takes the first entry and does not skip the
+   rest: the bytes of the other entries are read as the next record header (so only one-entry
+   lists round-trip; an empty list makes it read 2 bytes of the next record) *)
+Theorem C14_ntske_algorithms : forall a l fuel rest d,
+  0 <= a < 65536 -> Z.of_nat (2 + 2 * length l) < 65536 ->
+  read_data (list Z) rf_flat rf_flat (fun _ => []) (S fuel) (pack_record (RAlgorithm (a :: l)) ++ rest) d =
+  read_data (list Z) rf_flat rf_flat (fun _ => []) fuel (flat_map (be_enc 2) l ++ rest) (kd_set_algo d a).
+Proof. exact read_step_algorithms. Qed.
+Print Assumptions C14_ntske_algorithms.
+
+(* a Warning record (type 3, always packed critical) is a type ReadData does not know: error,
+   nothing assigned, its body left unread *)
+Theorem C14_ntske_warning_record : forall x fuel rest d,
+  read_data (list Z) rf_flat rf_flat (fun _ => []) (S fuel) (pack_record (RWarning x) ++ rest) d =
+  (d, e_unknown_critical, be_enc 2 x ++ rest).
+Proof. exact read_step_warning_full. Qed.
+Print Assumptions C14_ntske_warning_record.
+
+(* the byte-level decoder meets the record-level meaning ke_spec of every message built from
+   canonical records, End, Error and Warning records or just ending (End: data, no error, the
+   records behind it unread; Error: class of its code; Warning: error; nothing left: io.EOF) *)
+Theorem C14_ntske_meets_spec : forall rs d d' e left,
+  ke_spec rs d = Some (d', e, left) ->
+  exists rest', read_data_flat (pack_msg rs) d = (d', e, rest') /\ (e = 0 -> rest' = pack_msg left).
+Proof. exact read_data_meets_spec. Qed.
+Print Assumptions C14_ntske_meets_spec.
+
+(* decode after encode is the identity up to this projection: record lists that agree on info_of
+   (which forgets the NextProto value, the critical bits of Server and Port, Warning/Error/End and
+   unknown records) give the same Data ... *)
+Theorem C14_ntske_projection : forall rs rs' d,
+  map info_of rs = map info_of rs' -> fold_left apply_record rs d = fold_left apply_record rs' d.
+Proof. exact records_projection. Qed.
+Print Assumptions C14_ntske_projection.
+
+(* ... and ReadData is a left inverse of spelling a Data value as records *)
+Theorem C14_ntske_data_roundtrip : forall d d0 rest, kd_wf d -> kd_cookies d0 = [] ->
+  read_data_flat (pack_msg (data_records d ++ [REnd]) ++ rest) d0 = (d, 0, rest).
+Proof. exact data_roundtrip. Qed.
+Print Assumptions C14_ntske_data_roundtrip.
+
 Theorem C14_ntske_meets_oracle : forall s d schs rs rest sch,
   C14_same_results (fst (read_data_flat s d)) (map (run_sched s d) schs) = true /\
   (forallb canonical rs = true ->
@@ -302,6 +344,42 @@ Theorem C14_nts_response_meets_oracle : forall cs,
 Proof. exact (fields_ok_map ext_cookie). Qed.
 Print Assumptions C14_nts_response_meets_oracle.
 
+(* THE DOMAIN OF THE NONCE.  nonce = 16 bytes in the theorems above is not a restriction of the
+   encoder's inputs: Authenticator.pack draws the nonce itself (16 bytes from rand.Read) and
+   overwrites whatever Auth.Nonce the caller left (observed on every nts.enc case, where the caller
+   sets a 17-byte Auth.Nonce).  It is a restriction of the DECODER: DecodePacket is not an inverse of
+   the wire format for a nonce whose length is not a multiple of 4 (Authenticator.unpack advances by
+   the nonce length, not the padded length): witness with a 17-byte nonce: the packet decodes
+   without error and the ciphertext comes back as three padding zeros followed by its first 13
+   bytes.  Such packets are not produced by this project and are refused by authenticate (nonce
+   length != 16); kind nts.fmt shows the real decoder doing exactly this. *)
+Theorem C14_nts_nonce_padding_refuted :
+  length nonce17_nonce = 17%nat /\
+  let d := nts_decode nts_pkt_empty (nts_wire nonce17_hdr nonce17_in nonce17_nonce nonce17_ct) in
+  snd d = d_ok /\
+  np_auth (fst d) = (ext_authenticator, 44, nonce17_nonce, [0; 0; 0] ++ repeat 2 13) /\
+  np_auth (fst d) <> np_auth (nts_decoded nts_pkt_empty nonce17_in nonce17_nonce nonce17_ct).
+Proof. exact nts_nonce_padding_refuted. Qed.
+Print Assumptions C14_nts_nonce_padding_refuted.
+
+(* THE DOMAIN OF ENCRYPTED COOKIES.  C14_nts_response_cookies needs cookies of at least 24 bytes:
+   the walk of authenticate stops when fewer than 28 bytes are left, so a plaintext shorter than 28
+   bytes yields nothing ... *)
+Theorem C14_nts_walk_short : forall fuel pt acc,
+  (length pt < 28)%nat -> nts_auth_walk fuel pt 0 acc = (acc, d_ok).
+Proof. exact walk_short. Qed.
+Print Assumptions C14_nts_walk_short.
+
+(* ... and a response with one cookie shorter than 24 bytes is built and sent, and the client drops
+   the cookie without an error.  This project's servers issue 124-byte cookies only
+   (C11_issued_cookie_length). *)
+Theorem C14_nts_response_short_cookie_dropped : forall c idlen acc,
+  (length c < 24)%nat -> (length c mod 4 = 0)%nat -> (1 <= max_cookies idlen (length c))%nat ->
+  exists plain, nts_response_plain [c] idlen = Ok plain /\ plain = ext_field ext_cookie c /\
+                nts_auth_walk (length plain) plain 0 acc = (acc, d_ok).
+Proof. exact response_short_cookie_dropped. Qed.
+Print Assumptions C14_nts_response_short_cookie_dropped.
+
 Theorem C14_nts_pad4 : forall v, (length v <= length (pad4 v) < length v + 4)%nat /\ (length (pad4 v) mod 4 = 0)%nat /\
   firstn (length v) (pad4 v) = v.
 Proof.
@@ -336,3 +414,7 @@ Example C14_ex_ck_wf : ck_wf (15, [1; 2], [3]).
 Proof. simpl. repeat split; try lia; repeat constructor; lia. Qed.
 Example C14_ex_nts : (nts_wire_len {| ni_id := repeat 7%Z 32; ni_cookies := [repeat 1%Z 100]; ni_placeholders := [repeat 0%Z 100; repeat 0%Z 100] |} (repeat 9%Z 16) <= 1024)%nat.
 Proof. vm_compute. repeat constructor. Qed.
+Example C14_ex_kd_wf : kd_wf {| kd_algo := 15; kd_server := [49; 50]; kd_port := 123; kd_cookies := [[1; 2; 3]; []] |}.
+Proof. unfold kd_wf. simpl. repeat split; try lia; repeat constructor; simpl; lia. Qed.
+Example C14_ex_short_cookie : (1 <= max_cookies 32 20)%nat /\ (20 mod 4 = 0)%nat.
+Proof. vm_compute. split; [repeat constructor | reflexivity]. Qed.
